@@ -217,14 +217,40 @@ class Collector:
             self.rules.setdefault("R-ANCHOR", "every anchor (def, statement, idiom) a rule needs is present")
             self.floors.setdefault("R-ANCHOR", 0)
             self.ceilings.setdefault("R-ANCHOR", 0)
-            self.unresolved("R-ANCHOR", getattr(fn, "__module__", "?") + "." + getattr(fn, "__name__", "?"), "",
-                            "anchor present", str(e), stmt=str(e)[:80])
+            inst = self.unresolved("R-ANCHOR", getattr(fn, "__module__", "?") + "." + getattr(fn, "__name__", "?"), "",
+                                   "anchor present", str(e), stmt=str(e)[:80])
+            inst.facts["hard"] = public_anchor_vanished(str(e))
             return None
 
     def check(self, cond: bool, rule, construct, loc, what, detail_ok="", detail_bad="", **kw):
         if cond:
             return self.ok(rule, construct, loc, what, detail_ok, **kw)
         return self.bad(rule, construct, loc, what, detail_bad, **kw)
+
+
+def public_anchor_vanished(msg: str) -> bool:
+    """A *public* def / class / module of the package that a rule is anchored on is gone: no behaviour-preserving edit
+    does that (the public interface changed), so the analysis is broken (exit 2).  A private helper, a nested function,
+    a local name or a statement idiom that is gone is an ordinary refactoring: no verdict, not an error."""
+    import re
+    m = re.match(r"anchor-vanished: (def|class|module) ([\w.<>]+)$", msg.strip())
+    if not m:
+        return False
+    parts = m.group(2).split(".")
+    if "<locals>" in parts:
+        return False
+    last = parts[-1]
+    dunder = last.startswith("__") and last.endswith("__")
+    return dunder or not any(p.startswith("_") for p in parts if not (p.startswith("__") and p.endswith("__")))
+
+
+def strict_mode() -> bool:
+    """VERIF_STRICT=1: every undecided instance fails the run (exit 2).  Used by the self-validation and corpus tools to
+    tell 'noticed but not decided' from 'passed'.  The registered commands run without it: an instance the analysis cannot
+    decide is reported as NO-VERDICT, listed in the evidence, and does not change the exit status (only a definite
+    violation is an alarm; only a broken analysis -- crash, public anchor gone, rule with no instances and nothing to
+    explain it -- is exit 2)."""
+    return os.environ.get("VERIF_STRICT") == "1" or bool(os.environ.get("VERIF_SELFTEST_CHILD"))
 
 
 # ----------------------------------------------------------------- dominance reference
@@ -318,23 +344,33 @@ def finish(col: Collector, tier: str, t0: float, extra_coverage: Optional[dict] 
         elif i.verdict == UNRESOLVED:
             unresolved.append(i)
 
-    errors = []
+    errors, soft = [], []
+    strict = strict_mode()
+    hard_anchor = [i for i in unresolved if i.rule == "R-ANCHOR" and i.facts.get("hard")]
+    for i in hard_anchor:
+        errors.append(f"public anchor gone: {i.detail}")
     for rid, floor in col.floors.items():
         n = len([i for i in by_rule.get(rid, []) if i.verdict != INFO])
         if n < floor:
-            errors.append(f"rule {rid}: {n} instances found, floor is {floor} "
-                          f"(rule would pass vacuously)")
+            msg = (f"rule {rid}: {n} instances found, floor is {floor} "
+                   f"(rule would pass vacuously)")
+            # a shortfall that the undecided instances of this run explain (an anchor of the rule was not found) is
+            # part of that no-verdict; a shortfall with nothing undecided means the rule itself is broken
+            (errors if (strict or not unresolved) else soft).append(msg)
     for rid in by_rule:
         if rid not in col.rules:
             errors.append(f"rule {rid} used but not declared")
     for rid, ceil in col.ceilings.items():
         n = len([i for i in by_rule.get(rid, []) if i.verdict == UNRESOLVED])
         if n > ceil:
-            errors.append(f"rule {rid}: {n} unresolved instances, ceiling is {ceil}")
+            (errors if strict else soft).append(f"rule {rid}: {n} unresolved instances, ceiling is {ceil}")
 
     for i in col.instances:
         if i.verdict in (VIOLATION, UNRESOLVED):
             print(f"{i.loc} {i.rule} [{i.construct}] {i.what}: {i.verdict} -- {i.detail}")
+    if unresolved and not strict:
+        print(f"NO-VERDICT property={prop} {len(unresolved)} instance(s) could not be decided on this tree (listed above as UNRESOLVED "
+              f"and in the evidence file); they are neither a pass nor an alarm")
     n_ok = len([i for i in col.instances if i.verdict == OK])
     print(f"{prop}: {len(col.instances)} instances over {len(col.rules)} rules: "
           f"{n_ok} OK, {len(viol)} VIOLATION, {len(known_hits)} known, "
@@ -369,9 +405,11 @@ def finish(col: Collector, tier: str, t0: float, extra_coverage: Optional[dict] 
         code = 2
     for e in errors:
         print(f"ANALYSIS-ERROR property={prop} {e}")
+    for e in soft:
+        print(f"NO-VERDICT property={prop} {e}")
 
     if write:
-        write_evidence(col, tier, t0, viol, known_hits, unresolved, errors, extra_coverage,
+        write_evidence(col, tier, t0, viol, known_hits, unresolved, errors + soft, extra_coverage,
                        selftest)
     return code
 
